@@ -166,7 +166,14 @@ def run_smbo(name, space, fobj, seed, n_iter, cfg, init):
     return opt, steps, exc
 
 
+def pre_build(ctx):
+    import gen_units
+    gen_units.pre_build(ctx, "translate_smbo")
+
+
 def run(ctx):
+    import gen_units
+    gen_units.g_unit(ctx, "translate_smbo")
     ctx.assumptions.append("surrogate fitting and the acquisition functions (sklearn / scipy numerics) are oracles: the acquisition vector the "
                            "implementation computed is captured and the proposal rule is checked against it")
     ut = ctx.unit("S:SMBO tracking (X_sample / Y_sample / all_pos_comb)", "S",
